@@ -1,5 +1,6 @@
 import SMV.Lemmas.Protocol
 import SMV.Lemmas.ProtocolFail
+import SMV.Src.Tie
 /-!
 # C06 — Concurrent senders: mutual exclusion, exactly-once, nothing stranded
 
@@ -229,4 +230,44 @@ theorem C06_no_overlap_failures {fixed atomic} {x : SF} (h : ReachF fixed atomic
 theorem C06_at_most_once_failures {fixed atomic} {x : SF} (h : ReachF fixed atomic x) : AtMostOnce x.s :=
   atMostOnceF_inv h
 
+/-! ## The two flags of the protocol, read off the source-derived scripts of `processing_loop`
+
+`fixed` and `atomic` are not assumptions about the tree under test: they are computed from the scripts that
+`harness/srcgen.py` derives from `engines/sync.py` / `engines/async_.py` on every run (DESIGN 11.6). -/
+
+open SMV.Src in
+/-- the loop re-checks the queue after releasing the lock (the repair of D15) -/
+def fixedOf (script : List PStmt) : Bool := script.contains .recheck
+
+open SMV.Src in
+/-- the loop is a coroutine whose only suspension point is the awaited `_trigger`: between the last emptiness test
+and the release nothing else can run (asyncio's cooperative scheduling) -/
+def atomicOf (script : List PStmt) : Bool :=
+  script.any fun st => match st with
+    | .drain awaited _ => awaited
+    | _ => false
+
+theorem C06_script_flags :
+    fixedOf Src.Expected.processSync = true ∧ atomicOf Src.Expected.processSync = false ∧
+    fixedOf Src.Expected.processAsync = false ∧ atomicOf Src.Expected.processAsync = true := by decide
+
+/-- **C06 (nothing stranded), for the loops as the source writes them**: the sync engine's loop among threads and the
+async engine's loop among tasks — once all senders have returned the queue is empty and everything put has been
+processed, in put order, under every interleaving. -/
+theorem C06_nothing_stranded_scripts {s : S} (script : List Src.PStmt)
+    (hs : script = Src.Expected.processSync ∨ script = Src.Expected.processAsync)
+    (h : Reach (fixedOf script) (atomicOf script) s) (hq : ∀ i, s.pc i = .idle) :
+    s.queue = [] ∧ s.processed = s.history := by
+  refine C06_nothing_stranded ?_ h hq
+  rcases hs with rfl | rfl
+  · exact Or.inl C06_script_flags.1
+  · exact Or.inr C06_script_flags.2.2.2
+
+/-- without the re-check (`fixedOf = false`) and among threads (`atomicOf = false`) an event can be stranded: the
+script of the loop as it was before D15 -/
+theorem C06_stranded_without_recheck :
+    fixedOf (Src.Expected.processSync.filter (· != .recheck)) = false ∧
+    atomicOf (Src.Expected.processSync.filter (· != .recheck)) = false := by decide
+
 end SMV.Protocol
+
